@@ -2,6 +2,7 @@ package props
 
 import (
 	"bytes"
+	"encoding/json"
 	"fmt"
 	"runtime"
 	"strings"
@@ -542,4 +543,113 @@ func TestC05_LongTailToken(t *testing.T) {
 		}
 	}
 	col("C05").Completed("TestC05_LongTailToken")
+}
+
+// ---------------------------------------------------------------------------------------------
+// C06 on call chains: the same sequence of inputs parsed one after the other, each call reusing the previous result,
+// once per kernel family. Which family runs must not show in any step's outcome - also not through state that a family
+// keeps on the reused object between calls.
+
+type c06Chain struct {
+	Ins  [][]byte `json:"ins"`
+	ND   bool     `json:"nd"`
+	Copy bool     `json:"copy"`
+}
+
+func c06ChainCheck(c c06Chain) error {
+	if !hasAVX512 {
+		return bugf("host has no AVX-512: nothing to compare")
+	}
+	type outcome struct {
+		err  error
+		tape []uint64
+		strs []byte
+	}
+	run := func(avx512 bool) []outcome {
+		var outs []outcome
+		var prev *simdjson.ParsedJson
+		withKernel(avx512, func() {
+			for _, in := range c.Ins {
+				var pj *simdjson.ParsedJson
+				var err error
+				if c.ND {
+					pj, err = simdjson.ParseND(append([]byte(nil), in...), prev, simdjson.WithCopyStrings(c.Copy))
+				} else {
+					pj, err = simdjson.Parse(append([]byte(nil), in...), prev, simdjson.WithCopyStrings(c.Copy))
+				}
+				o := outcome{err: err}
+				if err == nil {
+					o.tape = append([]uint64(nil), pj.Tape...)
+					o.strs = append([]byte(nil), pj.Strings.B...)
+					prev = pj
+				}
+				outs = append(outs, o)
+			}
+		})
+		return outs
+	}
+	a, b := run(true), run(false)
+	for i := range c.Ins {
+		where := fmt.Sprintf("call %d of a chain of %d reusing the previous result (copy=%v nd=%v, %d bytes %q)", i, len(c.Ins), c.Copy, c.ND, len(c.Ins[i]), clip(c.Ins[i]))
+		if (a[i].err == nil) != (b[i].err == nil) {
+			return fmt.Errorf("%s: AVX-512 kernel: err=%v; AVX2 kernel: err=%v", where, a[i].err, b[i].err)
+		}
+		if a[i].err != nil {
+			continue
+		}
+		if len(a[i].tape) != len(b[i].tape) {
+			return fmt.Errorf("%s: tape lengths differ: avx512 %d, avx2 %d", where, len(a[i].tape), len(b[i].tape))
+		}
+		for k := range a[i].tape {
+			if a[i].tape[k] != b[i].tape[k] {
+				return fmt.Errorf("%s: tape[%d] differs: avx512 %#x, avx2 %#x", where, k, a[i].tape[k], b[i].tape[k])
+			}
+		}
+		if !bytes.Equal(a[i].strs, b[i].strs) {
+			return fmt.Errorf("%s: string buffers differ", where)
+		}
+	}
+	return nil
+}
+
+var c06ChainRun = register("C06", "chain", c06ChainCheck)
+
+func TestC06_Chains(t *testing.T) {
+	runRapid(t, "C06_Chains", nCases(60_000, 1_200_000), func(t *rapid.T) {
+		var c c06Chain
+		n := rapid.IntRange(2, 4).Draw(t, "nins")
+		for i := 0; i < n; i++ {
+			var in []byte
+			switch rapid.IntRange(0, 5).Draw(t, "src") {
+			case 0:
+				in, _ = genCarry(t)
+			case 1, 2:
+				// dense documents whose length and index count sit on the internal boundaries: k x 1408 +- 2 structurals,
+				// total length a multiple of 64 or one off
+				tok := []string{"1,", "[],", `"",`}[rapid.IntRange(0, 2).Draw(t, "tok")]
+				per := structuralsOf(tok)
+				cnt := (1408*rapid.IntRange(1, 3).Draw(t, "k")+rapid.IntRange(-2, 2).Draw(t, "d"))/per - 1
+				body := "[" + strings.Repeat(tok, cnt)
+				tail := "22]"
+				pad := (64 - (len(body)+len(tail))%64) % 64
+				pad += rapid.IntRange(-1, 1).Draw(t, "off")
+				if pad < 0 {
+					pad = 0
+				}
+				in = []byte(body + strings.Repeat(" ", pad) + tail)
+			default:
+				in, _ = genHostile(t)
+			}
+			if len(in) > 100_000 {
+				in = in[:100_000]
+			}
+			c.Ins = append(c.Ins, in)
+		}
+		c.ND = rapid.IntRange(0, 3).Draw(t, "nd") == 0
+		c.Copy = rapid.Bool().Draw(t, "copy")
+		c06ChainRun(t, c)
+		b, _ := json.Marshal(c)
+		col("C06").Eval(true, evidHash(b), "kind:chain", fmt.Sprintf("chain:%d", len(c.Ins)))
+	})
+	col("C06").Completed("TestC06_Chains")
 }
